@@ -800,6 +800,13 @@ impl Context {
                     };
                 }
             }
+            // the type checker identifies a one-element tuple with its element, so `(a)` can meet
+            // a value that is not a tuple
+            (Pattern::Tuple(patterns), _) if patterns.len() == 1 => {
+                let tid = Type::Unknown.into_id_with_location(self.get_loc_from_span(&span));
+                let tpat = TypedPattern::new(patterns[0].clone(), tid);
+                self.add_bind_pattern(&tpat, v, ty, is_global);
+            }
             _ => {
                 panic!("typing error in the previous stage")
             }
